@@ -269,6 +269,61 @@ Definition files_items (v : value) : option (list value) :=
   | _ => None
   end.
 
+(* `list(tree) == [self.name] and "" in tree[self.name]`: Some leaf = the test is true and
+   leaf = tree[self.name][""].  (A single key equal to the name whose value is not a dict ends
+   in an exception on either branch; [parse_tree] returns None for it.) *)
+Definition single_leaf (name : bytes) (tree : dict) : option value :=
+  match tree with
+  | [(k, BDict d)] => if bytes_eqb k name then lookup rk_empty d else None
+  | _ => None
+  end.
+
+(* the branch `if self.meta_version == 2` after tree = info["file tree"]: (is_file, files)
+     single file: {"path": Path(self.name).parent, "filename": self.name, "full": self.name,
+                   "length": leaf["length"], "root": leaf.get("pieces root")}; self.length += ...
+     else: self._parse_tree(tree, [self.name])                                                 *)
+Definition v2_files (name : bytes) (tree : dict) : option (bool * list entry) :=
+  match single_leaf name tree with
+  | Some leaf =>
+      match leaf_fields leaf with
+      | Some (n, r) => Some (true, [mk_entry [] [name] name n r])
+      | None => None
+      end
+  | None =>
+      match parse_tree [name] tree with
+      | Some es => Some (false, es)
+      | None => None
+      end
+  end.
+
+(* the branches `elif "length" in info` / `elif "files" in info` (and neither) *)
+Definition v1_files (name : bytes) (info : dict) : option (bool * list entry) :=
+  match lookup rk_length info with
+  | Some (BInt n) => Some (true, [mk_entry [] [name] name n None])
+  | Some _ => None                                   (* self.length += <not an int> *)
+  | None =>
+      match lookup rk_files info with
+      | Some fv =>
+          match files_items fv with
+          | Some items =>
+              match v1_entries name items with
+              | Some es => Some (false, es)
+              | None => None
+              end
+          | None => None
+          end
+      | None => Some (false, [])
+      end
+  end.
+
+Definition info_files (name : bytes) (mv : value) (info : dict) : option (bool * list entry) :=
+  if is_two mv then
+    match lookup rk_file_tree info with
+    | Some (BDict tree) => v2_files name tree
+    | _ => None                  (* KeyError; list(tree) / tree.items() on other shapes raise *)
+    end
+  else v1_files name info.
+
 (* Metadata.extract after `meta = pyben.load(self.path)` *)
 Definition extract (meta : value) : option extracted :=
   match meta with
@@ -281,50 +336,10 @@ Definition extract (meta : value) : option extracted :=
               else
                 let mv := match lookup rk_meta_version info with Some v => v | None => BInt 1 end in
                 let pieces := match lookup rk_pieces info with Some v => v | None => BStr [] end in
-                let result := mk_x name plv mv pieces in
-                if is_two mv then
-                  match lookup rk_file_tree info with
-                  | Some (BDict tree) =>
-                      let general :=
-                        match parse_tree [name] tree with
-                        | Some es => Some (result false es)
-                        | None => None
-                        end in
-                      match tree with
-                      | [(k, BDict d)] =>
-                          if bytes_eqb k name then
-                            (* list(tree) == [self.name] and "" in tree[self.name] *)
-                            match lookup rk_empty d with
-                            | Some leaf =>
-                                match leaf_fields leaf with
-                                | Some (n, r) => Some (result true [mk_entry [] [name] name n r])
-                                | None => None
-                                end
-                            | None => general
-                            end
-                          else general
-                      | _ => general
-                      end
-                  | _ => None                  (* KeyError; list(tree) / tree.items() on other shapes raise *)
-                  end
-                else
-                  match lookup rk_length info with
-                  | Some (BInt n) => Some (result true [mk_entry [] [name] name n None])
-                  | Some _ => None                                   (* self.length += <not an int> *)
-                  | None =>
-                      match lookup rk_files info with
-                      | Some fv =>
-                          match files_items fv with
-                          | Some items =>
-                              match v1_entries name items with
-                              | Some es => Some (result false es)
-                              | None => None
-                              end
-                          | None => None
-                          end
-                      | None => Some (result false [])
-                      end
-                  end
+                match info_files name mv info with
+                | Some (is_file, files) => Some (mk_x name plv mv pieces is_file files)
+                | None => None
+                end
           | _, _ => None       (* KeyError "piece length" / "name"; a name that is not a byte string: ValueError *)
           end
       | _ => None              (* KeyError "info"; info["piece length"] on a non-dict: TypeError *)
